@@ -17,7 +17,8 @@
      * Unlink removes whole subtrees.  Mkdir with Mkparents succeeds on an existing directory.
      * A descriptor whose file was unlinked, replaced or moved away (directly or with an
        ancestor) is detached: it keeps working, nothing it writes is visible in the tree.
-     * A file that carries an mtime gets mtime := now when modified content is flushed.
+     * A file that carries an mtime keeps one when modified content is flushed; its value is then
+       chosen by MFS (code NOW = "set, unspecified": DagModifier refreshes it only for some DAG shapes).
      * one writer per file (a second Open / File.Flush would block): not generated.
 
    Deviations: every open known finding X has (a) the predicate under which an operation
@@ -99,7 +100,9 @@ A0 == [p |-> <<>>, q |-> <<>>, ts |-> FALSE, par |-> FALSE, fl |-> FALSE, d |-> 
 OkRes == {"ok", "d", "f"}
 Ret(op, a, res, names, fin, alts) ==
     last' = [op |-> op, a |-> a, res |-> res, names |-> names, fin |-> fin, alts |-> alts]
-Alt(dev, tree) == [dev |-> dev, res |-> "ok", tree |-> Proj(tree)]
+\* as-built alternative: what MFS shows afterwards and what a flush of the root persists
+AltD(dev, tree, dag) == [dev |-> dev, res |-> "ok", tree |-> Proj(tree), dag |-> Proj(dag)]
+Alt(dev, tree)       == AltD(dev, tree, tree)
 
 \* T = open deviations whose region this operation enters.  While inside a region only
 \* descriptor operations and read-only calls are generated, until all descriptors are closed
@@ -170,32 +173,36 @@ Rm(p, fl) ==
 MvFinal(src, dst, ts) ==
     LET t == Append(IF ts THEN dst ELSE Parent(dst), IF ts THEN Base(src) ELSE Base(dst))
     IN IF IsD(fs, t) THEN Append(t, Base(src)) ELSE t
-Mv(src, dst, ts) ==
+MvInfo(src, dst, ts) ==
     LET dDir  == IF ts THEN dst ELSE Parent(dst)
         t     == Append(dDir, IF ts THEN Base(src) ELSE Base(dst))
         final == MvFinal(src, dst, ts)
         pre   == IsD(fs, dDir) /\ IsD(fs, Parent(src)) /\ Ex(fs, src) /\ ~(IsD(fs, t) /\ Ex(fs, final))
         self  == pre /\ IsD(fs, src) /\ IsPrefix(src, Parent(final))  \* into itself / its own subtree
         ok    == pre /\ ~self
-        same  == final = src                                        \* only for a file onto itself
-        sub   == Sub(fs, src)
         nameq == /\ Len(Parent(src)) > 0 /\ Len(Parent(final)) > 0
                  /\ Base(Parent(src)) = Base(Parent(final)) /\ Base(src) = Base(final)
-        dup   == ok /\ ~same /\ nameq /\ Parent(src) # Parent(final)  \* D1: distinct dirs, equal names
-        copied == Graft(fs, final, sub)                             \* as built without the unlink
-        alts  == IF dup THEN <<Alt(D1, copied)>>
-                 ELSE IF self THEN (IF nameq THEN <<Alt(D2, copied), Alt(D2, Without(fs, src))>>
-                                             ELSE <<Alt(D2, Without(fs, src))>>)
+    IN [final |-> final, pre |-> pre, self |-> self, ok |-> ok, nameq |-> nameq,
+        same |-> final = src,                                        \* only for a file onto itself
+        dup  |-> ok /\ final # src /\ nameq /\ Parent(src) # Parent(final)]   \* D1: distinct dirs, equal names
+MvCopied(src, final) == Graft(fs, final, Sub(fs, src))               \* as built without the unlink
+MvFds(src, final) == LET un == Unhook(src)
+                     IN [i \in Fds |-> IF i \in AttAt(final) THEN [un[i] EXCEPT !.att = FALSE] ELSE un[i]]
+Mv(src, dst, ts) ==
+    LET mi    == MvInfo(src, dst, ts)
+        final == mi.final
+        sub   == Sub(fs, src)
+        alts  == IF mi.dup THEN <<Alt(D1, MvCopied(src, final))>>
+                 ELSE IF mi.self THEN (IF mi.nameq THEN <<Alt(D2, MvCopied(src, final)), Alt(D2, Without(fs, src))>>
+                                                  ELSE <<Alt(D2, Without(fs, src))>>)
                  ELSE <<>>
     IN /\ src # Root /\ (ts \/ dst # Root)
-       /\ pre => \A r \in DOMAIN sub : Len(final) + Len(r) <= MaxDepth       \* exploration bound
-       /\ fs' = IF ok /\ ~same THEN Graft(Without(fs, src), final, sub) ELSE fs
-       /\ fds' = IF ~ok THEN fds
-                 ELSE LET un == Unhook(src)
-                      IN [i \in Fds |-> IF i \in AttAt(final) THEN [un[i] EXCEPT !.att = FALSE] ELSE un[i]]
-       /\ Gate("Mv", (IF dup THEN {D1} ELSE {}) \cup (IF self THEN {D2} ELSE {})
-                     \cup (IF ok /\ ~same /\ AttBelow(src) # {} THEN {D3} ELSE {}))
-       /\ Ret("Mv", [A0 EXCEPT !.p = src, !.q = dst, !.ts = ts], IF ok THEN "ok" ELSE "err", {}, final, alts)
+       /\ mi.pre => \A r \in DOMAIN sub : Len(final) + Len(r) <= MaxDepth    \* exploration bound
+       /\ fs' = IF mi.ok /\ ~mi.same THEN Graft(Without(fs, src), final, sub) ELSE fs
+       /\ fds' = IF mi.ok THEN MvFds(src, final) ELSE fds
+       /\ Gate("Mv", (IF mi.dup THEN {D1} ELSE {}) \cup (IF mi.self THEN {D2} ELSE {})
+                     \cup (IF mi.ok /\ ~mi.same /\ AttBelow(src) # {} THEN {D3} ELSE {}))
+       /\ Ret("Mv", [A0 EXCEPT !.p = src, !.q = dst, !.ts = ts], IF mi.ok THEN "ok" ELSE "err", {}, final, alts)
 
 SetMeta(op, p, m, t) ==
     LET res == WalkRes(p)
@@ -254,7 +261,7 @@ Truncate(i, n) ==
         leak == [k \in 1..Len(old) |-> IF k <= Len(fd.view) THEN fd.view[k] ELSE old[k]]
         hit  == fd.open /\ fd.att /\ leak # old
     IN Modify("Truncate", i, [A0 EXCEPT !.n = n], Resize(fds[i].view, n), fds[i].pos, n # Len(fds[i].view),
-              IF hit THEN {D6} ELSE {}, IF hit THEN <<Alt(D6, [fs EXCEPT ![fd.p].c = leak])>> ELSE <<>>)
+              IF hit THEN {D6} ELSE {}, IF hit THEN <<AltD(D6, [fs EXCEPT ![fd.p].c = leak], fs)>> ELSE <<>>)
 
 \* what a flush of descriptor i makes visible (FdFlush, Close)
 Flushed(i) ==
